@@ -114,6 +114,11 @@ func propC09(c *Ctx, r *Report) {
 	c.runWalkAll(r, "handlewalk", "lowering", inPkgs("ir", "wgsl/internal/lower", "internal/registry"), reachFilter(reach), true, true, nil)
 	c.runRebuild(r, "rebuild.complete", "lowering.rebuilds", func(rel string) bool { return rel == "ir" || rel == "wgsl/internal/lower" }, lowerRebuildExceptions)
 	c.ruleImageAtomicNoCompare(r)
+	c.runBalance(r, "pairing.scope", scopeBracket)
+	c.runScopePerBlock(r, "scope.perblock", lowerScopeSpec)
+	r.floor("pairing.pushScope/popScope", 5)
+	r.floor("scope.bodies", 8)
+	r.Clauses = append(r.Clauses, "scope discipline (E7, go/cfg): pushScope/popScope are balanced on every successful path of every lowering function, and every compound-statement body is lowered in a scope opened for it alone (no two sibling bodies share a scope)")
 	r.floor("lowering.ExpressionHandle.remappers", 4)
 	r.floor("lowering.ExpressionHandle.walkers", 2)
 	r.floor("lowering.TypeHandle.remappers", 2)
